@@ -37,7 +37,7 @@ PROPS = {
     "C01": {
         "level": "other",
         "rules": [G.pair_table, G.pairs_unify, G.writers_conform, G.sequences, G.char_codec, P.output_methods, P.input_methods,
-                  U.transmutes, R.no_peeking],
+                  B.varints, U.transmutes, R.no_peeking],
         "thorough": [TH.feature_matrix_grammar],
         "explanation": "Structural round-trip argument: every built-in type has one writer/reader pair (G1); for each pair every "
                        "writer path unifies with a reader path that reads the same primitives in the same order, honours the "
@@ -93,7 +93,7 @@ PROPS = {
     "C05": {
         "level": "other",
         "rules": [_n1, N.sign_loss_casts, N.alloc_taint, N.loops_progress, E.decode_errors, P.sources_agree, R.coordinates,
-                  U.inventory, U.transmutes, U.uninit_apis, D.validate, D.macrolint,
+                  T.header_reader, U.inventory, U.transmutes, U.uninit_apis, D.validate, D.macrolint,
                   ST.make(["N1/panic", "N1/index", "N3", "N4", "E1", "U2", "U3"])],
         "thorough": [TH.feature_matrix_totality],
         "explanation": "Static totality argument for the decode side over the resolved MIR of desert_core: every may-panic site "
@@ -109,7 +109,7 @@ PROPS = {
     "C06": {
         "level": "other",
         "rules": [R.coordinates, R.pairing, R.chunks_skipped, G.pairs_unify, G.sequences, E.decode_errors, T.read_field,
-                  T.header_reader, T.sequence_reader, T.ref_protocol, T.dedup_strings],
+                  T.header_reader, T.step_codes, T.field_position, T.sequence_reader, T.ref_protocol, T.dedup_strings],
         "explanation": "Framing is honoured structurally: a chunk window bounds the reads made inside it (R3), each field read "
                        "lies inside the window of its own generation and the advanced cursor is written back (R1), chunk windows "
                        "come from skipped sizes (R5), every length / count / tag read governs the bytes that follow (G2), unknown "
@@ -122,7 +122,7 @@ PROPS = {
     "C07": {
         "level": "other",
         "rules": [G.pairs_unify, G.sequences, R.no_peeking, R.chunks_skipped, R.pairing, T.constructors, T.sequence_reader,
-                  T.sequence_writer, G.compressed_frame],
+                  T.sequence_writer, T.header_reader, G.compressed_frame, D.validate],
         "explanation": "Self-delimitation by structure: each reader path consumes exactly the primitives its writer path emitted "
                        "(G2, by induction over nested codecs), sequence readers consume the terminator / all counted items "
                        "(G4, G9, T12, T13), no decoder looks at the remaining length (R4), an evolved record moves the parent "
@@ -145,8 +145,8 @@ PROPS = {
     },
     "C09": {
         "level": "other",
-        "rules": [T.dedup_strings, T.state_tables, S.constructors_and_writers, B.varints, E.error_sites, O.header_strings,
-                  D.validate],
+        "rules": [T.dedup_strings, T.state_tables, T.step_codes, S.constructors_and_writers, B.varints, E.error_sites,
+                  O.header_strings, D.validate],
         "explanation": "Writer/reader protocol of the string table (T9: the first occurrence is exactly <String>::serialize, a "
                        "repeat is VarI32(-id), unknown ids are InvalidStringId, the reader registers every first occurrence "
                        "exactly once), one numbering function starting at 1 used by both sides and no other writer of the "
